@@ -702,7 +702,7 @@ def explore(run, max_paths=None, max_seconds=None, n_samples=2, timeout_ms=60000
             # decided by the concrete replay
             import traceback, os
             tb = traceback.extract_tb(e.__traceback__)
-            if not tb or not os.path.realpath(tb[-1].filename).startswith(os.path.realpath(os.environ.get('VERIF_REPO', '/repo')) + os.sep):
+            if type(e).__module__ != 'gdb' and (not tb or not os.path.realpath(tb[-1].filename).startswith(os.path.realpath(os.environ.get('VERIF_REPO', '/repo')) + os.sep)):
                 # raised by harness code itself (innermost frame outside the repository): a harness bug, never a verdict
                 res.status = 'error'
                 res.detail = 'harness exception %s: %s @ %s' % (type(e).__name__, e, ' <- '.join(
